@@ -258,13 +258,13 @@ func (c *RemoteClient) Credentials() []AuthInfo {
 func (c *RemoteClient) Databases() []DatabaseInfo {
 	c.mu.Lock()
 	defer c.mu.Unlock()
-	if c.cache.databases != nil {
-		return c.cache.databases
+	if c.cache.databases == nil {
+		if data, err := c.reader(fmt.Sprintf("global/%d", PGDatabase)); err == nil {
+			c.cache.databases = ParsePGDatabase(data)
+		}
 	}
-	if data, err := c.reader(fmt.Sprintf("global/%d", PGDatabase)); err == nil {
-		c.cache.databases = ParsePGDatabase(data)
-	}
-	return c.cache.databases
+	// hand out a copy: a caller that modifies the result must not change what later calls return
+	return append([]DatabaseInfo(nil), c.cache.databases...)
 }
 
 func (c *RemoteClient) Database(name string) *DatabaseInfo {
@@ -347,7 +347,8 @@ func (c *RemoteClient) Table(dbOID uint32, tableName string) *TableInfo {
 
 func (c *RemoteClient) Columns(dbOID, tableOID uint32) []AttrInfo {
 	_, columns := c.loadCatalog(dbOID)
-	return columns[tableOID]
+	// a copy, for the same reason as in Databases
+	return append([]AttrInfo(nil), columns[tableOID]...)
 }
 
 func (c *RemoteClient) ColumnNames(dbOID, tableOID uint32) []string {
